@@ -223,12 +223,15 @@ class Vector(MutableSequence[TScalar]):
 
     @classmethod
     def _unpickle(cls, args: tuple[Any, ...], kwargs: dict[str, Any]) -> Self:
-        vector = cls(*args, **kwargs)
-        # The constructor infers the value type from the first value; restore the pickled one
-        # (e.g. an int vector whose first remaining value is a bool).
         value_type = kwargs.get("value_type")
-        if value_type is not None:
-            vector._value_type = value_type
+        if value_type is None:
+            return cls(*args, **kwargs)
+        # The constructor infers the value type from the first value, which need not be the
+        # vector's value type (e.g. an int vector whose first remaining value is a bool), so
+        # create an empty vector of the pickled value type and restore the values.
+        (values,) = args
+        vector = cls([], **kwargs)
+        vector._values = list(values)
         return vector
 
     def __repr__(self) -> str:
